@@ -310,7 +310,8 @@ fn str_eq(a: &str, b: &str) -> (r: bool) ensures r == (a@ == b@) { a == b }
 pub mod dictmodel {
     use vstd::prelude::*;
     use super::pdf::primitive::*;
-    pub closed spec fn put(m: DMap, k: Seq<char>, v: Primitive) -> DMap { if v is Null { m } else { m.insert(k, v) } }
+    broadcast use super::pdf::primitive::group_dict;
+    pub closed spec fn put(m: DMap, k: Seq<char>, v: Primitive) -> DMap { if v is Null { m } else { ins(m, k, v) } }
     pub broadcast proof fn lemma_put_dom(m: DMap, k: Seq<char>, v: Primitive, j: Seq<char>)
         ensures #[trigger] put(m, k, v).dom().contains(j) <==> ((j == k && !(v is Null)) || m.dom().contains(j))
     {}
@@ -319,11 +320,14 @@ pub mod dictmodel {
     {}
     pub proof fn lemma_put_def(m: DMap, k: Seq<char>, v: Primitive)
         ensures put(m, k, v) == (if v is Null { m } else { m.insert(k, v) })
-    {}
+    { lemma_ins_def(m, k, v); }
     pub broadcast group group_put { lemma_put_dom, lemma_put_index }
+    // everything about entries: used by `broadcast use dictmodel::group_all;` at the top of writer bodies and lemmas.  NOT switched on
+    // in reader bodies: there every look-up through the chain of `remove`s is stated once, up front (see `chain` in unit.py) --
+    // with the axioms on, the solver re-derives the whole chain in the context of each of the 2n+1 exits of a reader
+    pub broadcast group group_all { group_put, super::pdf::primitive::group_dict }
 }
 pub use dictmodel::put;
-broadcast use dictmodel::group_put;
 pub open spec fn nm(s: Seq<char>) -> Primitive { Primitive::Name(SmallString { chars: Ghost(s) }) }
 // reader, plain `#[pdf(key=K)]` field: the entry, or Null when the key is absent; a failing present entry is
 // FromPrimitive{field}; an absent entry whose type cannot be read from Null is MissingEntry
